@@ -61,6 +61,8 @@ func c02Names(r *rng) []string {
 	}
 	// host names with non-ASCII labels (IDN in Unicode form): the lookup keys are hashes of BYTES
 	names = append(names, mIDNNames...)
+	// real domain names spelled only with the characters of IP literals (hex digits, dots)
+	names = append(names, r1HexNames...)
 	_ = r
 
 	return names
@@ -68,6 +70,9 @@ func c02Names(r *rng) []string {
 
 func c02GenLine(r *rng, names []string) string {
 	d := pick(r, names)
+	if r.chance(1, 8) {
+		return r1DenyAllowLine(r, names, d)
+	}
 	switch r.n(16) {
 	case 0, 1:
 		return pick(r, []string{"0.0.0.0", "127.0.0.1", "10.0.0.1", "::", "::1", "2001:db8::1", "::ffff:1.2.3.4"}) + " " + d
@@ -157,6 +162,10 @@ func c02Gen(r *rng, n int, w *bufio.Writer) {
 		bodies := make([][]string, nLists)
 		// a few names per scenario, shared by the lines and the requests, so that most requests hit
 		focus := subset(r, names, 4)
+		if r.chance(1, 3) {
+			// names that look like IP literals but are not (only 0-9 a-f and dots)
+			focus = append(focus, pick(r, r1HexNames), pick(r, r1HexNames))
+		}
 		if cs := c02HostCollisions(); len(cs) > 0 && r.chance(1, 2) {
 			p := pick(r, cs)
 			focus = append(focus, p[0], p[1])
